@@ -252,10 +252,13 @@ class Structured(UrlParams):
 
 def body(chk):
     quick = chk.tier == 'quick'
-    p = (3, 6) if quick else tier_param('C20', (4, 9))
+    p = (3, 6) if quick else tier_param('C20', (4, 7))
     run_lane(chk, UrlParams, p, bounds={'path chars': f'<= {p[0]}', 'query chars': f'<= {p[1]} (absent or present)', 'alphabet': 'what the url crate returns for a non-special scheme: printable ASCII minus " # < > (and ? ` { } in the path)'},
              need_regions=('ok', 'err:InvalidScopeString', 'err:DecodingUTF8', 'err:UnrecognizedCriticalExtension'))
-    run_lane(chk, Structured, ((1, False) if quick else (2, True)), bounds={'attributes': '0..2', 'scope': 'omitted/base/one/sub', 'filter': 'omitted or 3 symbolic chars', 'extensions': '0..2: critical or not, bindname/x-bindpw (symbolic case)/StartTLS OID/credentials OID/unknown, with or without value'},
+    if not quick:
+        p2 = tier_param('C20B', (3, 8))
+        run_lane(chk, UrlParams, p2, bounds={'path chars': f'<= {p2[0]}', 'query chars': f'<= {p2[1]} (absent or present)', 'alphabet': 'as above'}, selftest=False, need_regions=('ok',))
+    run_lane(chk, Structured, ((1, False) if quick else tier_param('C20S', (2, False))), bounds={'attributes': '0..2', 'scope': 'omitted/base/one/sub', 'filter': 'omitted or 3 symbolic chars', 'extensions': '0..2: critical or not, bindname/x-bindpw (symbolic case)/StartTLS OID/credentials OID/unknown, with or without value'},
              selftest=False, need_regions=('ok', 'err:UnrecognizedCriticalExtension'))
     chk.assumptions += [
         'url::Url::path()/query() are nondeterministic stubs constrained by the url crate\'s documented output alphabet for non-special schemes; every counterexample is replayed through the real url crate, and a path/query the crate does not reproduce makes the check inconclusive',
